@@ -27,7 +27,7 @@ from ..refstyle import RefStyle
 
 ID = "C08"
 LEVEL = "exploration"
-ENGINE = "E1"
+ENGINE = "E1+E2"
 CAP_S = {"quick": 600, "thorough": 2700}
 
 NULL = RefStyle()
@@ -116,6 +116,18 @@ COLUMNS_DEFAULT = {"equal": False, "expand": False, "column_first": False, "righ
                    "align": None, "padding": [0, 1], "width": None}
 
 
+def _pdev(**kw):
+    o = dict(PANEL_DEFAULT)
+    o.update(kw)
+    return o
+
+
+def _cdev(**kw):
+    o = dict(COLUMNS_DEFAULT)
+    o.update(kw)
+    return o
+
+
 def _pad(p):
     return p if isinstance(p, int) else tuple(p)
 
@@ -184,6 +196,10 @@ def build(d):
         return Columns([Text(s) for s in labels], padding=_pad(o["padding"]), width=o["width"], expand=o["expand"],
                        equal=o["equal"], column_first=o["column_first"], right_to_left=o["right_to_left"],
                        align=o["align"])
+    if k == "group":
+        from rich.console import RenderGroup
+        from rich.text import Text
+        return RenderGroup(*[Text(s) for s in d[1]])
     if k == "tree":
         from rich.tree import Tree
         from rich.text import Text
@@ -378,8 +394,14 @@ def _crash_key(e):
     return "crash/%s/%s:%s" % (type(e).__name__, fr.filename.rsplit("/", 1)[-1], fr.name)
 
 
+_OVERRIDE_OUT = [None]
+
+
 def _render_case(case, res, color="truecolor", no_color=False, base=NULL):
-    """build + render the case's description; -> (lines, ended) or None after recording a crash"""
+    """build + render the case's description; -> (lines, ended) or None after recording a crash.
+    (The history part judges a render it obtained itself: it is handed over through _OVERRIDE_OUT.)"""
+    if _OVERRIDE_OUT[0] is not None:
+        return _OVERRIDE_OUT[0]
     con = console(case["con"], color, no_color)
     try:
         out = render(con, build(case["desc"]), case["W"], base)
@@ -894,9 +916,165 @@ def check_tree(case, res):
             return
 
 
+
+# ------------------------------------------------------------------ HISTORY part (E2 style)
+# Rendering is a function of the renderable's *current* content, not of what was rendered before: after any
+# short history of renders (at two widths) and public mutations, the last render must equal the render of a
+# fresh object built directly in the final state, and must pass the family's own clauses.
+def check_group(case, res):
+    out = _render_case(case, res)
+    if out is None:
+        return
+    texts = [t.rstrip(" ") for t, _ in out[0]]
+    want = [part for s in case["desc"][1] for part in s.split("\n")]
+    if texts != want:
+        res.violate("group/items", case, "group shows %r, items are %r" % (texts, want))
+
+
+HIST_NEXT = {
+    "columns": ["i3xxxx", "i4x", "i5", "i6"],
+    "tree": ["a0", "a1\nb1", "a2", "a3"],
+    "group": ["g2", "g3\ny", "g4", "g5"],
+    "child": [T("a\nbb c"), T("abcdefgh"), T("x"), T("ab cd", "center")],
+}
+
+
+def hist_mutate(obj, kind, mut, j):
+    """apply the j-th mutation of the history to the real object through its public interface"""
+    from rich.text import Text
+    if kind == "columns":
+        item = Text(HIST_NEXT["columns"][j])
+        if mut == "add_renderable":
+            obj.add_renderable(item)
+        else:
+            obj.renderables.append(item)
+    elif kind == "tree":
+        target = obj.children[0] if (mut == "add_child" and obj.children) else obj
+        target.add(Text(HIST_NEXT["tree"][j]))
+    elif kind == "group":
+        obj.renderables.append(Text(HIST_NEXT["group"][j]))
+    elif kind == "pbar":
+        obj.update(obj.completed + 5)
+    else:
+        obj.renderable = build(HIST_NEXT["child"][j])
+
+
+def hist_apply(desc, kind, mut, j):
+    """the same mutation on the description"""
+    d = json.loads(json.dumps(desc))
+    if kind == "columns":
+        d[1].append(HIST_NEXT["columns"][j])
+    elif kind == "tree":
+        firsts = [i for i, p in enumerate(d[1]) if p == 0]
+        d[1].append(firsts[0] if (mut == "add_child" and firsts) else 0)
+        d[2].append(1)
+        d[3].append(HIST_NEXT["tree"][j])
+    elif kind == "group":
+        d[1].append(HIST_NEXT["group"][j])
+    elif kind == "pbar":
+        d[2] = d[2] + 5
+    else:
+        d[1] = HIST_NEXT["child"][j]
+    return d
+
+
+HIST_SUBJECTS = [
+    ("columns", ["columns", ["i0", "i1xx", "i2"], _cdev()], ["add_renderable", "append"], (14, 40)),
+    ("columns", ["columns", ["i0", "i1xx", "i2"], _cdev(right_to_left=True)], ["add_renderable", "append"], (14, 40)),
+    ("columns", ["columns", ["i0", "i1xx", "i2"], _cdev(equal=True, expand=True)], ["add_renderable", "append"], (14, 40)),
+    ("columns", ["columns", ["i0", "i1xx", "i2"], _cdev(column_first=True)], ["add_renderable", "append"], (14, 40)),
+    ("columns", ["columns", ["i0", "i1xx", "i2"], _cdev(width=6, align="right")], ["add_renderable", "append"], (14, 40)),
+    ("columns", ["columns", [], _cdev()], ["add_renderable", "append"], (14, 40)),
+    ("tree", ["tree", [-1], [1], ["n0"], None], ["add_root", "add_child"], (16, 40)),
+    ("tree", ["tree", [-1, 0, 0, 1], [1, 1, 1, 1], ["n0", "n1", "n2", "n3"], None], ["add_root", "add_child"], (16, 40)),
+    ("tree", ["tree", [-1, 0, 1], [1, 1, 1], ["n0\nm0", "n1\nm1", "n2"], "bold"], ["add_root", "add_child"], (16, 40)),
+    ("group", ["group", ["g0", "g1\nz"]], ["append"], (6, 40)),
+    ("panel", ["panel", T("ab cd"), _pdev()], ["set_child"], (12, 40)),
+    ("panel", ["panel", T("ab cd"), _pdev(expand=False, title="t", style="on blue")], ["set_child"], (12, 40)),
+    ("padding", ["padding", T("ab cd"), [1, 2], True, "none"], ["set_child"], (12, 40)),
+    ("padding", ["padding", T("ab cd"), [0, 0, 0, 3], False, "on blue"], ["set_child"], (12, 40)),
+    ("align", ["align", T("ab cd"), "center", True, None, None], ["set_child"], (12, 40)),
+    ("align", ["align", T("ab cd"), "right", False, 6, "on blue"], ["set_child"], (12, 40)),
+    ("constrain", ["constrain", T("ab cd"), 4], ["set_child"], (12, 40)),
+    ("styled", ["styled", T("ab cd"), "bold red"], ["set_child"], (12, 40)),
+    ("pbar", ["pbar", 10, 0, None, False, None], ["update"], (7, 40)),
+    ("pbar", ["pbar", 10, 0, None, True, 0.37], ["update"], (7, 40)),
+]
+
+
+def gen_history(tier):
+    depth = 3 if tier == "quick" else 4
+    kinds = KINDS[:1] if tier == "quick" else KINDS
+    for kind, init, muts, (w1, w2) in HIST_SUBJECTS:
+        alphabet = ["R1", "R2"] + muts
+        for n in range(1, depth + 1):
+            for evs in itertools.product(alphabet, repeat=n):
+                if evs[-1] not in ("R1", "R2"):
+                    continue
+                for con in kinds:
+                    yield {"fam": "history", "kind": kind, "con": con, "W1": w1, "W2": w2, "init": init,
+                           "events": list(evs)}
+
+
+class _HistoryResult:
+    """lets a family's own judge run on the last render of a history: findings are filed under history/..."""
+
+    def __init__(self, res, case):
+        self.res, self.case, self.evaluations = res, case, 0
+
+    def violate(self, key, case, detail):
+        self.res.violate("history/" + key, self.case, detail)
+
+    def sig(self, s, nontrivial=True):
+        pass
+
+    def count(self, name, n=1):
+        pass
+
+
+def check_history(case, res):
+    kind = case["kind"]
+    con = console(case["con"])
+    widths = {"R1": case["W1"], "R2": case["W2"]}
+    desc, nmut, out, last_w = case["init"], 0, None, None
+    pattern = []
+    try:
+        obj = build(desc)
+        for ev in case["events"]:
+            if ev in widths:
+                last_w = widths[ev]
+                out = render(con, obj, last_w)
+                pattern.append("R")
+            else:
+                hist_mutate(obj, kind, ev, nmut)
+                desc = hist_apply(desc, kind, ev, nmut)
+                nmut += 1
+                pattern.append("M")
+        fresh = render(con, build(desc), last_w)
+    except Exception as e:  # noqa: BLE001
+        res.evaluations += 1
+        res.violate("history/%s/%s" % (kind, _crash_key(e)), case, "%s: %s" % (type(e).__name__, e))
+        return
+    res.evaluations += 1
+    pat = "".join(pattern)
+    res.sig(("history", kind, pat, last_w == case["W1"]), nontrivial="RM" in pat)
+    if out != fresh:
+        (lines, ended), (flines, fended) = out, fresh
+        gt, ft = [t for t, _ in lines], [t for t, _ in flines]
+        what = "characters" if gt != ft else "styles" if lines != flines else "trailing newline"
+        res.violate("history/%s/differs-from-fresh" % kind, case,
+                    "after %r the render at %d (%s) differs from a fresh object in the same state: got %r, fresh %r"
+                    % (case["events"], last_w, what, gt, ft))
+    inner = {"fam": kind, "con": case["con"], "W": last_w, "desc": desc, "color": "truecolor", "no_color": False}
+    _OVERRIDE_OUT[0] = out
+    try:
+        CHECKS[kind](inner, _HistoryResult(res, case))
+    finally:
+        _OVERRIDE_OUT[0] = None
+
 CHECKS = {"panel": check_panel, "padding": check_padding, "align": check_align, "constrain": check_constrain,
           "styled": check_styled, "rule": check_rule, "bar": check_bar, "pbar": check_bar,
-          "columns": check_columns, "tree": check_tree}
+          "columns": check_columns, "tree": check_tree, "group": check_group, "history": check_history}
 
 
 # ------------------------------------------------------------------ enumeration
@@ -907,18 +1085,6 @@ LEAF_VARIANTS = [
     T("abcdefgh", None, "ellipsis"), T("abcdefgh", None, "crop"), T("ab cd", None, None, True),
     T("ab cd", None, None, False, "spans"), T("aあ b", None, None, False, "green on red"), ["str", "ab cd"],
 ]
-
-
-def _pdev(**kw):
-    o = dict(PANEL_DEFAULT)
-    o.update(kw)
-    return o
-
-
-def _cdev(**kw):
-    o = dict(COLUMNS_DEFAULT)
-    o.update(kw)
-    return o
 
 
 NESTED_QUICK = [
@@ -1051,7 +1217,7 @@ def gen_padding(tier):
                 for style in ("none", "on blue"):
                     d = ["padding", child, pad, expand, style]
                     smin = cmin(d)
-                    for kind in KINDS:
+                    for kind in (KINDS if (tier == "thorough" or style == "none") else KINDS[:1]):
                         for W in widths_for(smin):
                             yield {"fam": "padding", "con": kind, "W": W, "desc": d}
 
@@ -1064,7 +1230,7 @@ def gen_align(tier):
                     for style in (None, "on blue"):
                         smin = cmin(child)
                         d = ["align", child, align, pad, (smin + 2) if width == "rel" else width, style]
-                        for kind in KINDS:
+                        for kind in (KINDS if (tier == "thorough" or (width is None and style is None)) else KINDS[:1]):
                             for W in widths_for(smin):
                                 yield {"fam": "align", "con": kind, "W": W, "desc": d}
 
@@ -1148,7 +1314,7 @@ COLUMN_AXES = [
 
 
 def gen_columns(tier):
-    for ls in LABEL_SETS:
+    for li, ls in enumerate(LABEL_SETS):
         for k in range(1, 6):
             labels = ls[:k]
             mx = max(max(sw(p) for p in s.split("\n")) for s in labels)
@@ -1159,8 +1325,15 @@ def gen_columns(tier):
                               width={None: None, "max": mx, "max+2": mx + 2}[o2["width"]])
                     d = ["columns", labels, o]
                     smin = cmin(d)
-                    kinds = KINDS if (tier == "thorough" or r == 0) else KINDS[:1]
+                    # glyph substitution does not touch Columns: other consoles only for the plainest vectors in quick
+                    kinds = KINDS if (tier == "thorough" or (r == 0 and not equal and not expand)) else KINDS[:1]
                     ws = sorted(set(list(range(smin, smin + 11)) + [16, 20, 24, 30, 40, 80]))
+                    if tier == "quick" and r == 2:
+                        # two-deviation vectors: thinned to two label sets x {2, 3, 5} items, equal == expand,
+                        # fewer large widths
+                        if li == 2 or k not in (2, 3, 5) or equal != expand:
+                            continue
+                        ws = [w for w in ws if w <= 24]
                     for kind in kinds:
                         for W in ws:
                             if W >= smin:
@@ -1205,11 +1378,11 @@ def gen_tree(tier):
 
 GENS = {"panel": gen_panel, "padding": gen_padding, "align": gen_align, "constrain": gen_constrain,
         "styled": gen_styled, "rule": gen_rule, "bar": gen_bar, "pbar": gen_pbar, "columns": gen_columns,
-        "tree": gen_tree}
+        "tree": gen_tree, "history": gen_history}
 SHARDS = {"quick": {"panel": 24, "padding": 4, "align": 6, "constrain": 2, "styled": 2, "rule": 2, "bar": 2,
-                    "pbar": 3, "columns": 32, "tree": 8},
+                    "pbar": 3, "columns": 24, "tree": 8, "history": 2},
           "thorough": {"panel": 96, "padding": 8, "align": 12, "constrain": 4, "styled": 3, "rule": 3, "bar": 3,
-                       "pbar": 4, "columns": 40, "tree": 12}}
+                       "pbar": 4, "columns": 40, "tree": 12, "history": 4}}
 
 
 # ------------------------------------------------------------------ protocol
@@ -1245,19 +1418,27 @@ def describe(tier, seed, res):
         "rule": "frames x children x widths [struct_min, struct_min+8] u {40, 80} x consoles {utf-8, ascii-only, legacy_windows}. "
                 "children: 11 text leaves + 10 leaf variants (justify/overflow/no_wrap/spans/str) + 2x2 table + one nested frame "
                 "of each kind%s. Panel options (box 4, title 3 x title_align 3, expand, width, padding 4, style, border_style, "
-                "safe_box): %s. Padding 5 pads x expand x style; Align 3 x pad x width x style; Constrain 4 widths; Styled 2 "
-                "styles: full products. Rule: %d titles x %d character strings x 3 aligns x str/Text x W 1..24,40,41,80. "
+                "safe_box): %s. Padding 5 pads x expand x style; Align 3 x pad x width 3 x style; Constrain 4 widths; Styled 2 "
+                "styles: full products (quick: ascii/legacy consoles only for unstyled Padding and Align without width/style). Rule: %d titles x %d character strings x 3 aligns x str/Text x W 1..24,40,41,80. "
                 "Bar / ProgressBar: size/total {10,0} x begin x end / completed x width {None,1,5,W+3} x pulse x colour system "
                 "{truecolor, None} x no_color x W 1..13,40,80. Columns: 3 label sets x 1..5 items x equal x expand x column_first "
                 "x right_to_left (full) x (align 4, padding 4, width 3) with %s. Tree: every ordered tree shape with <=5 nodes "
                 "(23 shapes) x expanded flags of the internal nodes x 3 label layouts (one-line, two-line, mixed) x guide style "
-                "{default, bold, underline2}. A case is non-trivial when the frame was compared cell by cell with the child "
-                "rendered alone (or, for rules/bars/columns/trees, when the clause it exercises was applicable)."
+                "{default, bold, underline2}. HISTORY part: %d mutable subjects (Columns add_renderable / renderables.append, "
+                "Tree.add on root and on the first child, RenderGroup.renderables.append, Panel/Padding/Align/Constrain/Styled "
+                "with .renderable reassigned, ProgressBar.update) x every history of length <=%d over {render at W1, render at "
+                "W2, each mutator} that ends in a render: the last render must equal (characters + visible styles) the render "
+                "of a fresh object built in the final state and pass the family's own clauses. "
+                "A case is non-trivial when the frame was compared cell by cell with the child "
+                "rendered alone (or, for rules/bars/columns/trees, when the clause it exercises was applicable; for "
+                "histories, when a mutation follows a render and precedes the last render)."
                 % ("" if q else " + every frame kind with each single option deviation around 3 leaves + 4 deeper nestings",
                    "all vectors with <=2 deviations (consoles other than utf-8 only for <=1 deviation)" if q
                    else "full product of title x expand x width x padding with <=1 deviation of box/style/border_style/safe_box (deeper nestings: <=2 deviations)",
                    4 if q else 7, 4 if q else 8,
-                   "<=2 deviations (consoles other than utf-8 only for 0)" if q else "the full product"),
+                   "<=2 deviations (two-deviation vectors thinned: 2 label sets x {2,3,5} items, equal==expand, W<=24; "
+                   "consoles other than utf-8 only for the default vector)" if q else "the full product",
+                   len(HIST_SUBJECTS), 3 if q else 4),
         "assumptions": [
             "the child rendered alone by the real code at the inner width is the reference for 'the child's own lines' "
             "(children are judged as frames of their own in other cases; width budget of children is C01)",
@@ -1280,7 +1461,8 @@ def replay(case):
 
 TECHNIQUE = ("bounded-exhaustive enumeration of frame/child/option/width/console descriptions on the real renderables, "
              "judged cell by cell against a picture assembled from the child rendered alone plus hand-written border, "
-             "padding, offset, order and guide arithmetic")
+             "padding, offset, order and guide arithmetic; plus all short render/mutate histories of the mutable frames, "
+             "judged differentially against a fresh object in the final state")
 LEVEL_TEXT = ("Every frame description in the stated bounds is rendered by the real code at every width of the range on three "
               "console kinds and compared with an independently assembled expected picture (characters and visible styles per "
               "cell). Exhaustive inside the bounds; option spaces of Panel and Columns are deviation-bounded in the quick tier; "
